@@ -75,6 +75,11 @@ CLAIMS = {
         "Trusted: symx interception layer, z3; stubs: haarSeg (arbitrary breakpoints), hmm_get_model.predict (arbitrary states), smooth_log2 (identity), rolling_outlier_quantile (arbitrary mask). cbs/flasso (R) and process pools are outside.",
         "DESIGN.md 4/C03",
     ),
+    "C04": (
+        "Decomposed as the whole pipeline explodes: (1) load_adjust_coverages / match_ref_to_sample / mask_bad_bins on a 4-bin reference where one bin at a time has fully symbolic log2/spread/depth/gc, against samples that hold all, a subset or a permutation of the bins, an absent bin or duplicated coordinates: exactly the bins whose coordinate-matched reference row passes the filters are kept, absent/duplicate refused; (2) the real do_fix with corrections off on 3 target + 0-2 antitarget bins with symbolic sample log2, reference log2 and spread (pooled or flat): within a class log2 = sample - reference + one constant, median of chromosome medians = 0, weights in [1e-4, 1] and monotone in bin size / reference spread, output unchanged by a symbolic depth rescaling (two runs); (3) center_by_window: each log2 is reduced by the rolling median over the covariate order (independent mirrored-window oracle) and genomic order is restored; edge_losses/edge_gains equal their documented formulas for symbolic sizes and gaps.",
+        "Trusted: symx interception layer, z3; biweight_midvariance inside apply_weights is a solver-chosen member of {0, 0.3, 1.5}; coordinates concrete (pandas hashes coordinate tuples).",
+        "DESIGN.md 4/C04",
+    ),
     "C06": (
         "Every feasible path of the real merge/flatten/subtract/intersection/subdivide/resize_ranges/total_range_size code on tables of <= 3 rows (quick; 4 thorough) with fully symbolic integer coordinates in [0, 10^6] is enumerated by z3; on each path the base-exactness oracle (one universally quantified position x) and the structural clauses are discharged as unsat. A bounded model check of the real code, not a proof: nothing is claimed beyond the row bounds.",
         "Trusted: the symx interception layer (object-dtype pandas semantics = int64 semantics, validated by replaying explored paths on the untouched code), z3; avg/min sizes of subdivide concrete.",
